@@ -1,7 +1,7 @@
 import SdJwt.Lemmas.Policy
 import SdJwt.Impl.Flows
 import SdJwt.Impl.Header
-import SdJwt.Lemmas.Total
+import SdJwt.Lemmas.First
 /-!
 # C04 — only the exact issuer-signed JWT, the right key and the configured algorithm verify  (partial)
 
@@ -74,36 +74,12 @@ theorem C04_bad_signature_rejected (v : Validation) (fam : KeyFam) (hdrAlg : Jwt
   unfold decodeDecision
   simp [buildValidation]
 
-theorem holder_verifyRaw_err (rt : Rt) (tok : String)
-    (h : ∀ jwt, ∃ e, rt.jwtDecode jwt = .err e) : ∃ e, Holder.verifyRaw rt tok = .err e := by
-  unfold Holder.verifyRaw
-  have hnp := sdJwtParts_noPanic tok.toList
-  cases hp : sdJwtParts tok.toList with
-  | panic => exact absurd hp hnp
-  | err e => exact ⟨e, by simp⟩
-  | ok parts =>
-    obtain ⟨e, he⟩ := h (strOf parts.jwt)
-    by_cases hk : parts.kb.isSome = true
-    · exact ⟨.rejected, by simp [hk]⟩
-    · exact ⟨e, by simp [hk, he]⟩
-
 /-- holder side: when `decode` of the first `~`-segment fails, `Holder::verify` fails, whatever
 disclosures follow — the disclosures are not touched -/
 theorem C04_first_holder (rt : Rt) (tok : String)
     (h : ∀ jwt, ∃ e, rt.jwtDecode jwt = .err e) : ∃ e, Holder.verify rt tok = .err e := by
   obtain ⟨e, he⟩ := holder_verifyRaw_err rt tok h
   exact ⟨e, by simp [Holder.verify, he]⟩
-
-theorem verifier_verifyRaw_err (rt : Rt) (tok : String) (policy : Bool)
-    (h : ∀ jwt, ∃ e, rt.jwtDecode jwt = .err e) : ∃ e, Verifier.verifyRaw rt tok policy = .err e := by
-  unfold Verifier.verifyRaw
-  have hnp := sdJwtParts_noPanic tok.toList
-  cases hp : sdJwtParts tok.toList with
-  | panic => exact absurd hp hnp
-  | err e => exact ⟨e, by simp⟩
-  | ok parts =>
-    obtain ⟨e, he⟩ := h (strOf parts.jwt)
-    exact ⟨e, by simp [he]⟩
 
 /-- verifier side, same statement -/
 theorem C04_first_verifier (rt : Rt) (tok : String) (policy : Bool)
